@@ -1,10 +1,12 @@
 SPECIFICATION Spec
 CONSTANTS
-  MaxNf = 7
+  MaxNf = 8
   Roles <- RolesAll
-  PlaceholderTypedAsCookie = TRUE
+  PlaceholderTypedAsCookie = FALSE
   UidChecked = TRUE
   AdWhole = TRUE
+  StopAtAuth = TRUE
+  CtLenExact = TRUE
   LenChoices <- LenChoicesGen
   TruncMax = 4
 INVARIANTS Emit
